@@ -316,6 +316,9 @@ func (this *ClientImpl) getAccount(accData *AccountData, passwd []byte) (*Accoun
 	}
 	publicKey := privateKey.Public()
 	addr := types.AddressFromPubKey(publicKey)
+	if addr.ToBase58() != accData.Address {
+		return nil, fmt.Errorf("decrypted key does not match the account address")
+	}
 	scheme, err := s.GetScheme(accData.SigSch)
 	if err != nil {
 		return nil, fmt.Errorf("signature scheme error:%s", err)
@@ -490,6 +493,9 @@ func (this *ClientImpl) ChangePassword(address string, oldPasswd, newPasswd []by
 	prv, err := keypair.DecryptWithCustomScrypt(accData.GetKeyPair(), oldPasswd, this.walletData.Scrypt)
 	if err != nil {
 		return fmt.Errorf("keypair.DecryptWithCustomScrypt error:%s", err)
+	}
+	if prvAddr := types.AddressFromPubKey(prv.Public()); prvAddr.ToBase58() != address {
+		return fmt.Errorf("decrypted key does not match the account address")
 	}
 	newPrvSecret, err := keypair.EncryptWithCustomScrypt(prv, address, newPasswd, this.walletData.Scrypt)
 	if err != nil {
